@@ -12,12 +12,12 @@ import uuid
 from harness import core, fmt_vhdx
 from harness.core import Z, zpairs
 from harness.main import Finding, Suite
-from harness.props import c03, c04, c05, c06
+from harness.props import c03, c04, c05, c06, c17
 from harness.readers import outcome_of
 
 PROPERTY = "C11"
 PROPS_FILE = "Props/C11.v"
-MODEL_FILES = ["Model/Vhd.v", "Model/Vdi.v", "Model/Vhdx.v", "Model/Hds.v", "Model/SnapChain.v"]
+MODEL_FILES = ["Model/Vhd.v", "Model/Vdi.v", "Model/Vhdx.v", "Model/Hds.v", "Model/SnapChain.v", "Model/HyperV.v"]
 META = {
     "category": "proof",
     "text": "Coq theorems carry the logic of termination: every reader loop (VHD, VDI, VHDX, HDS; QCOW2 and VMDK in C01/C02) "
@@ -383,5 +383,13 @@ class SnapChain(Suite):
         return {"nshots": len(case["shots"])}
 
 
-SUITES = {"wild_vdi": WildVdi(), "wild_hds": WildHds(), "wild_vhdx": WildVhdx(), "mutants": Mutants(),
+class HypervRaw(c17.RawSuite):
+    """corpus-driven: crafted Hyper-V files (object-table cycles ...) must open or raise, never hang"""
+    name = "raw"
+
+    def generate(self, rng, tier):
+        return []
+
+
+SUITES = {"raw": HypervRaw(), "wild_vdi": WildVdi(), "wild_hds": WildHds(), "wild_vhdx": WildVhdx(), "mutants": Mutants(),
           "snapchain": SnapChain()}
